@@ -292,3 +292,46 @@ func VerifC01Composites() {
 	}
 	vComposites[k].run()
 }
+
+// VerifC01Boundaries: shapes at the size boundaries the generic harness does not reach -
+// LowCardinality dictionaries around the 8-bit key limit (and, in the thorough tier, the 16-bit
+// one), strings around the 1- and 2-byte varint length limits and the String batch-allocation
+// threshold. Dictionary values are concrete and pairwise distinct (the shape is the subject);
+// string contents are symbolic.
+func VerifC01Boundaries() {
+	switch verifChoice("case", 3) {
+	case 0:
+		ns := []int{254, 255, 256, 257}
+		if verifParam("bigdict", 0) == 1 {
+			ns = append(ns, 65534, 65535, 65536, 65537)
+		}
+		n := ns[verifChoice("dict", len(ns))]
+		extra := verifU64("extra") // one symbolic row on top of the distinct ones
+		next := 0
+		vOfLeaf("LowCardinality(UInt64)", true, func() ColumnOf[uint64] { return new(ColUInt64).LowCardinality() },
+			func() uint64 {
+				next++
+				if next > n {
+					return extra
+				}
+				return uint64(next)*7 + 1
+			}, vEqU64)
+	case 1:
+		ls := []int{127, 128}
+		if verifParam("bigstr", 0) == 1 {
+			ls = append(ls, 16383, 16384)
+		}
+		l := ls[verifChoice("strlen", len(ls))]
+		vOfLeaf("String", true, func() ColumnOf[string] { return new(ColStr) }, func() string { return verifStr("s", l) }, vStrEq)
+	case 2:
+		ns := []int{254, 255, 256, 257}
+		n := ns[verifChoice("dict", len(ns))]
+		next := 0
+		vOfLeaf("LowCardinality(String)", true, func() ColumnOf[string] { return new(ColStr).LowCardinality() },
+			func() string {
+				next++
+				k := next % (n + 1)
+				return string([]byte{'k', byte(k), byte(k >> 8)})
+			}, vStrEq)
+	}
+}
